@@ -381,3 +381,72 @@ Lemma detect_marker_unguarded_oob :
   detect_marker false true [101;110;100;111;98;106;115;116;97;114;116;120;114;101;102]%N = DOOB
   /\ detect_marker true true [101;110;100;111;98;106;115;116;97;114;116;120;114;101;102]%N = DRes (-1).
 Proof. vm_compute. split; reflexivity. Qed.
+
+(* ------------------------------------------------------------------ Flate predictor parameters *)
+
+Local Ltac Zify.zify_post_hook ::= Z.div_mod_to_equations.
+
+Lemma safe_add_some : forall a b r, safe_add a b = Some r -> (0 <= a /\ 0 <= b /\ r = a + b)%Z.
+Proof.
+  intros a b r. unfold safe_add.
+  destruct (Z.ltb_spec a 0) as [Ha|Ha]; simpl; [discriminate|]. destruct (Z.ltb_spec b 0) as [Hb|Hb]; simpl; [discriminate|].
+  destruct (max_int <? a + b)%Z; [discriminate|]. intros Hr. inversion Hr. lia.
+Qed.
+Lemma safe_mul_some : forall a b r, safe_mul a b = Some r -> (0 <= a /\ 0 <= b /\ r = a * b)%Z.
+Proof.
+  intros a b r. unfold safe_mul.
+  destruct (Z.ltb_spec a 0) as [Ha|Ha]; simpl; [discriminate|]. destruct (Z.ltb_spec b 0) as [Hb|Hb]; simpl; [discriminate|].
+  destruct (max_int <? a * b)%Z; [discriminate|]. intros Hr. inversion Hr. lia.
+Qed.
+
+Lemma flate_parameters_some : forall colors bpc columns c b k,
+  flate_parameters colors bpc columns = Some (c, b, k) -> (1 <= c /\ 1 <= b /\ 1 <= k)%Z.
+Proof.
+  intros colors bpc columns c b k. unfold flate_parameters.
+  destruct colors as [c0|]; [destruct (Z.leb_spec c0 0) as [Hc|Hc]; [discriminate|]|];
+  (destruct bpc as [b0|];
+   [destruct ((b0 =? 1)%Z || (b0 =? 2)%Z || (b0 =? 4)%Z || (b0 =? 8)%Z || (b0 =? 16)%Z) eqn:Eb; [|discriminate]|]);
+  (destruct columns as [k0|]; [destruct (Z.leb_spec k0 0) as [Hk|Hk]; [discriminate|]|]);
+  intros Hr; inversion Hr; subst; lia.
+Qed.
+
+Lemma predictor_row_params_pos : forall p c b k rs rl bpp,
+  (1 <= c)%Z -> (1 <= b)%Z -> (1 <= k)%Z ->
+  predictor_row_params p c b k = Some (rs, rl, bpp) -> (1 <= rs /\ 1 <= rl /\ 1 <= bpp)%Z.
+Proof.
+  intros p c b k rs rl bpp Hc Hb Hk. unfold predictor_row_params.
+  destruct (safe_mul b c) as [bits|] eqn:E1; [|discriminate]. apply safe_mul_some in E1.
+  destruct (safe_add bits 7) as [bitsr|] eqn:E2; [|discriminate]. apply safe_add_some in E2.
+  destruct (safe_mul bits k) as [rowbits|] eqn:E3; [|discriminate]. apply safe_mul_some in E3.
+  destruct (safe_add rowbits 7) as [rowbitsr|] eqn:E4; [|discriminate]. apply safe_add_some in E4.
+  assert (Hbits : (1 <= bits)%Z) by nia.
+  assert (Hrb : (1 <= rowbits)%Z) by nia.
+  destruct (p =? 2)%Z.
+  - intros H. inversion H. subst. lia.
+  - destruct (safe_add (rowbitsr / 8) 1) as [rl0|] eqn:E5; [|discriminate]. apply safe_add_some in E5.
+    intros H. inversion H. subst. lia.
+Qed.
+
+(* whatever the /DecodeParms say: if the predictor stage accepts them, the number of colour components, the row
+   size, the row length and the bytes per pixel are all >= 1 — every divisor in the stage (len(row)/colors in
+   applyHorDiff, b.Len()%rowSize in decodePostProcess) is non-zero and every row buffer is non-empty *)
+Lemma post_process_params_pos : forall predictor colors bpc columns c rs rl bpp,
+  post_process_params predictor colors bpc columns = PPRows c rs rl bpp ->
+  (1 <= c /\ 1 <= rs /\ 1 <= rl /\ 1 <= bpp)%Z.
+Proof.
+  intros predictor colors bpc columns c rs rl bpp. unfold post_process_params.
+  destruct predictor as [p|]; [|discriminate].
+  destruct (p =? 1)%Z; [discriminate|]. destruct (valid_predictor p); simpl; [|discriminate].
+  destruct (flate_parameters colors bpc columns) as [[[c0 b0] k0]|] eqn:Ef; [|discriminate].
+  apply flate_parameters_some in Ef. destruct Ef as [Hc [Hb Hk]].
+  destruct (predictor_row_params p c0 b0 k0) as [[[rs0 rl0] bpp0]|] eqn:Er; [|discriminate].
+  intros H. inversion H. subst.
+  pose proof (predictor_row_params_pos _ _ _ _ _ _ _ Hc Hb Hk Er). lia.
+Qed.
+
+Lemma post_process_params_examples :
+  post_process_params (Some 2%Z) (Some 0%Z) None None = PPErr /\
+  post_process_params (Some 2%Z) (Some 1%Z) None None = PPRows 1 1 1 1 /\
+  post_process_params (Some 12%Z) (Some 3%Z) (Some 8%Z) (Some 5%Z) = PPRows 3 15 16 3 /\
+  post_process_params (Some 1%Z) (Some 0%Z) None None = PPass.
+Proof. vm_compute. repeat split; reflexivity. Qed.
